@@ -90,6 +90,20 @@ func c12Mutations(name string, base core.Store, thorough bool) []c12Log {
 		bl := append(append(append([][]byte{}, lines[:i]...), []byte("\n  \n")), lines[i:]...)
 		add("blank-lines", fmt.Sprintf("blank lines before line %d", i+1), join(bl))
 	}
+	// two marks of a hand edit at once: blank lines somewhere, an unparsable line later (the named line number must
+	// count the blank ones), and an unparsable but newline-terminated line followed only by trailing white space
+	for i := range lines {
+		for j := i; j < len(lines); j++ {
+			if !thorough && (j-i)%2 == 1 {
+				continue
+			}
+			ls := append(append(append([][]byte{}, lines[:i]...), []byte("\n\n")), lines[i:j]...)
+			ls = append(append(ls, []byte("this line is not JSON\n")), lines[j:]...)
+			add("blank+garbage", fmt.Sprintf("two blank lines before line %d, a non-JSON line before line %d", i+1, j+1), join(ls))
+		}
+	}
+	add("blank+garbage", "a non-JSON line at the end followed by spaces without a newline", append(append([]byte{}, log...), []byte("this line is not JSON\n   ")...))
+	add("blank+garbage", "a non-JSON line at the end followed by a blank line and a tab", append(append([]byte{}, log...), []byte("{broken\n\n\t")...))
 	// all permutations of the first <= 6 lines (hand-merged histories)
 	n := len(lines)
 	if n > 6 {
